@@ -31,6 +31,7 @@ type replayFile struct {
 	Values   map[string]uint64 `json:"values"`
 	Clock    []int64           `json:"clock"`
 	Schedule []schedEntry      `json:"schedule"`
+	Repeat   int               `json:"repeat"`
 }
 
 var (
@@ -119,6 +120,10 @@ func Reach(label string, cond bool) {
 		fmt.Printf("VERIF-REACHED %s\n", label)
 	}
 }
+
+// Possible: the event must be possible for SOME input / random outcome / schedule. Under the
+// symbolic executor a label no path can satisfy is a violation; natively it is a witness print.
+func Possible(label string, cond bool) { Reach(label, cond) }
 
 func Observe(tag string, v interface{}) {
 	mu.Lock()
@@ -303,6 +308,23 @@ func ReplayMain(harnesses map[string]func()) {
 	}
 	var ms0, ms1 runtime.MemStats
 	runtime.ReadMemStats(&ms0)
+	for rep := 1; rep < rf.Repeat; rep++ {
+		// "impossible" replays: run the harness repeatedly with the real sources of randomness
+		func() {
+			defer func() {
+				if r := recover(); r != nil {
+					if _, ok := r.(assumeFalse); !ok {
+						fmt.Printf("VERIF-PANIC %v\n", r)
+					}
+				}
+			}()
+			h()
+		}()
+		mu.Lock()
+		ctr = map[string]int{}
+		clockN = 0
+		mu.Unlock()
+	}
 	func() {
 		defer func() {
 			if r := recover(); r != nil {
